@@ -246,7 +246,7 @@ func (r *runner) actor(name string, ops []Op) func() {
 					f, err = lockedfile.Edit(r.data)
 					if err == nil {
 						c := exec.Command("sleep", "1000")
-						c.ExtraFiles = []*os.File{f.File.File}
+						c.ExtraFiles = []*os.File{rawFile(f.File)}
 						if cerr := c.Start(); cerr == nil {
 							r.mu.Lock()
 							r.children = append(r.children, c)
@@ -281,6 +281,18 @@ func (r *runner) actor(name string, ops []Op) func() {
 			}
 		}
 	}
+}
+
+// rawFile returns the *os.File behind the descriptor of a lockedfile.File, whether or not the
+// lockedfile package was built with its os import redirected to vos.
+func rawFile(f any) *os.File {
+	switch v := f.(type) {
+	case *os.File:
+		return v
+	case *vos.File:
+		return v.File
+	}
+	panic("unexpected file type")
 }
 
 func okErr(err error) string {
